@@ -270,7 +270,8 @@ def run_reuse_case(ctx, d):
     y = small_ints(rng, (n, 2), -2, 2)
     y[:, 0] += 1
     ok, expl = ctx.impl_call(d, lambda: IntegratedGradients(pm.tf_outputs, operator=op, steps=d["steps"][0],
-                                                            baseline_value=float(d["baselines"][0]), batch_size=d["bs"]))
+                                                            baseline_value=float(d["baselines"][0]), batch_size=d["bs"],
+                                                            reducer=None))   # keep the channel axis: the sum runs over ALL features
     ctx.case(d, True)
     ctx.count("reuse_cases")
     if not ok:
